@@ -214,6 +214,42 @@ pub fn gen_wrapped(src: &mut Src, _i: usize) -> Case {
     case
 }
 
+/// one logical line longer than the whole retained buffer: an unbroken soft-wrapped line of
+/// (limit + rows) ... 3 x (limit + rows) rows, under limits with a slack of 2 and more
+/// (20 ... 60), cut into calls of every granularity, with short lines around it
+pub fn gen_giant_lines(src: &mut Src, _i: usize) -> Case {
+    let cols = src.range(1, 6);
+    let rows = src.range(1, 5);
+    let limit = *src.pick(&[19usize, 20, 21, 22, 25, 29, 30, 31, 40, 60]);
+    let mut s = String::new();
+    for k in 0..src.range(1, 4) {
+        for _ in 0..src.range(0, 4) {
+            s.push_str(&format!("l{}\r\n", k));
+        }
+        let rows_long = (limit + rows) * src.range(1, 3) + src.range(0, 6);
+        let len = rows_long * cols - src.below(cols);
+        for j in 0..len {
+            s.push((b'a' + ((k * 5 + j) % 26) as u8) as char);
+        }
+        if src.chance(2, 3) {
+            s.push_str("\r\n");
+        }
+    }
+    let mut case = Case::new(cols, rows, Some(limit));
+    case.calls = match src.below(4) {
+        0 => vec![Call::FeedStr(s)],
+        1 => s.chars().map(|c| Call::FeedStr(c.to_string())).collect(),
+        2 => {
+            // one screen row per call
+            let chars: Vec<char> = s.chars().collect();
+            chars.chunks(cols).map(|c| Call::FeedStr(c.iter().collect())).collect()
+        }
+        _ => chunk(src, &s),
+    };
+    case.calls.push(Call::FeedStr(CLOSING.to_string()));
+    case
+}
+
 /// bulk: a single feed_str call scrolls off hundreds to thousands of lines (more than any
 /// batching threshold such as 255/256/1024/4096/8192), under small and large limits
 pub fn gen_bulk(src: &mut Src, _i: usize) -> Case {
@@ -332,6 +368,7 @@ pub fn run(env: &Env) -> PropRun {
     parts.push(random_part(env, "bulk-chunks", env.tier.scale(160, 20), &gen_bulk, &j));
     parts.push(random_part(env, "long-sessions", env.tier.scale(300, 30), &gen_long_session, &j));
     parts.push(random_part(env, "wrapped-lines", env.tier.scale(60_000, 30), &gen_wrapped, &j));
+    parts.push(random_part(env, "giant-lines", env.tier.scale(6_000, 30), &gen_giant_lines, &j));
     parts.push(random_part(env, "random-sessions", env.tier.scale(60_000, 30), &gen_case, &j));
     PropRun {
         parts,
